@@ -9,6 +9,23 @@ thread_local! {
     static EVENTS: RefCell<Vec<String>> = const { RefCell::new(Vec::new()) };
 }
 
+thread_local! {
+    static RULES_HIT: RefCell<std::collections::BTreeSet<String>> = const { RefCell::new(std::collections::BTreeSet::new()) };
+}
+
+/// Remember that the rule `name` (for elements `tag`, defined in `file`) matched; only while events are enabled.
+pub fn note_rule(file: &str, name: &str, tag: &str) {
+    if !ENABLED.with(|e| *e.borrow()) {
+        return;
+    }
+    RULES_HIT.with(|r| { r.borrow_mut().insert(format!("{}\t{}\t{}", file, tag, name)); });
+}
+
+/// Take the set of rules that matched since the last call ("file<TAB>tag<TAB>name", sorted).
+pub fn drain_rules_hit() -> Vec<String> {
+    return RULES_HIT.with(|r| std::mem::take(&mut *r.borrow_mut()).into_iter().collect());
+}
+
 /// Turn the thread-local event sink on or off (off by default).
 pub fn enable_events(on: bool) {
     ENABLED.with(|e| *e.borrow_mut() = on);
